@@ -12,7 +12,7 @@ def _has8(rle):
 
 def _c18_nontrivial(cf):
     # a literal (either kind) or an 8-bit string was emitted / asked for
-    if cf[2] == "seq":
+    if cf[2] in ("seq", "sess"):
         return True
     if cf[2] != "cmd":
         return False
@@ -36,6 +36,10 @@ CONFIG = dict(
          "UNKEYWORD, MODSEQ, NOT, OR), UID SEARCH, STORE, SORT, THREAD (thorough: the full grid everywhere and 20000 random argument "
          "vectors); commands with two or three literal-bearing arguments. Every case whose command contains k synchronising literals is run "
          "with the server answering: + at once; + after a pause; tagged NO; tagged BAD; and for k >= 2 also + then NO / BAD at the second. "
+         "Sessions (about 1100 cases): the probe is written after the negotiated state changed — ENABLE then UNAUTHENTICATE answered with or without a "
+         "capability code (and ENABLE again), a later capability list replacing the greeting's (untagged CAPABILITY, LOGIN with/without the code) for "
+         "every ordered pair of the base sets, and a capability list that arrives while the probe waits behind an APPEND holding the encoder; the "
+         "oracle judges the probe against the server's state per RFC 9051 / 5161 / 8437 at the moment its bytes are written. "
          "Sequences: a command with 2-3 literal-bearing arguments whose first or second literal is refused, followed on the same connection by a "
          "command with a synchronising literal that the server accepts (216 combinations). CapSet.Has: all 512 subsets of 9 capabilities x 21 queried names. Non-trivial = a literal or an 8-bit argument was involved; "
          "distinct = different case line",
@@ -47,7 +51,7 @@ CONFIG = dict(
                  "atoms (tag, command names, flags/keywords, fixed option words) are not judged beyond tokenisation: the property speaks about quoted strings and literals",
                  "NUL inside a literal payload is not judged (the property text does not mention it)",
                  "invalid keywords make the client close the connection before anything is flushed; the model says so under the assumption that fewer than 4096 bytes were pending (bufio)",
-                 "commands are issued one after the other (no pipelining of the probe with other literal-bearing commands; concurrent use is C13)"],
+                 "STARTTLS and AUTHENTICATE as state-changing events are not driven here (C17 / C05 cover the capability reset there); commands are issued one after the other (no pipelining of the probe with other literal-bearing commands; concurrent use is C13)"],
     leanchecker=True,
     level_text="proof: END TO END (conforms) — for every capability set, enabled set, modelled command, argument strings and every pattern "
                "of server answers (+ / tagged NO / tagged BAD to each synchronising literal), the bytes the mirrored client writes and the "
